@@ -168,14 +168,36 @@ def mk_replay(tr, S, it, nlead_in, nlead_out, what, label, expect_rows=None):
     return rp
 
 
+
+def stubbed(real):
+    """the same call with jax.random.permutation / choice replaced by their contract stubs (tracing, translator validation, replay)"""
+    def fn(*a):
+        with stubs.prng_stubs():
+            return real(*a)
+    return fn
+
+
+def trace_or_violation(ck, oid, real, args, argnames, label, stub=True):
+    """trace the real callable; if it cannot even be called for this (valid) static configuration -- the same exception when it is simply
+    run on concrete data with the real PRNG -- the statement fails for the configuration: reported as a reproduced violation"""
+    try:
+        return trace(stubbed(real) if stub else real, *args, argnames=argnames, label=label)
+    except Exception as ex:  # noqa: BLE001
+        try:
+            jax.block_until_ready(real(*args))
+        except Exception as ex2:  # noqa: BLE001
+            ck.fact(oid, False, f"{label} raises {type(ex2).__name__}: {str(ex2)[:300]} when called concretely for this configuration (real PRNG); tracing failed with {type(ex).__name__}")
+            return None
+        raise
+
+
 # ------------------------------------------------------------------------------------------------ batch_indices
 def sec_indices(ck, N, B, first=False):
     buf = mkrb((N,))
 
-    def fn(b, k):
-        with stubs.prng_stubs():
-            return b.batch_indices(B, key=k)
-    tr = trace(fn, buf, jr.key(0), argnames=["buf", "key"], label="AbstractBuffer.batch_indices")
+    tr = trace_or_violation(ck, f"idx.count@N={N},B={B}", lambda b, k: b.batch_indices(B, key=k), (buf, jr.key(0)), ["buf", "key"], "AbstractBuffer.batch_indices")
+    if tr is None:
+        return
     if first:
         ck.encoded(tr)
         concrete.validate(ck, tr, n=2, seed=ck.seed)
@@ -217,10 +239,9 @@ def sec_batches(ck, E, S_, B, first=False, controls=False):
     buf = mkrb(lead)
     cfg = f"E={E},S={S_},B={B}"
 
-    def fn(b, k):
-        with stubs.prng_stubs():
-            return b.batches(B, key=k)
-    tr = trace(fn, buf, jr.key(0), argnames=["buf", "key"], label="AbstractBuffer.batches")
+    tr = trace_or_violation(ck, f"idx.count@batches,{cfg}", lambda b, k: b.batches(B, key=k), (buf, jr.key(0)), ["buf", "key"], "AbstractBuffer.batches")
+    if tr is None:
+        return
     if first:
         ck.encoded(tr)
         concrete.validate(ck, tr, n=2, seed=ck.seed)
@@ -251,7 +272,9 @@ def sec_batches(ck, E, S_, B, first=False, controls=False):
 # ------------------------------------------------------------------------------------------------ gather
 def sec_gather(ck, N, B, first=False):
     buf = mkrb((N,))
-    tr = trace(lambda b, i: b.gather(i), buf, jnp.zeros(B, jnp.int32), argnames=["buf", "idx"], label="AbstractBuffer.gather")
+    tr = trace_or_violation(ck, f"gather.aligned@N={N},B={B}", lambda b, i: b.gather(i), (buf, jnp.zeros(B, jnp.int32)), ["buf", "idx"], "AbstractBuffer.gather", stub=False)
+    if tr is None:
+        return
     if first:
         ck.encoded(tr)
         concrete.validate(ck, tr, n=2, seed=ck.seed)
@@ -275,7 +298,9 @@ def sec_gather(ck, N, B, first=False):
 def sec_flatten(ck, E, S_, first=False):
     lead = (E, S_)
     buf = mkrb(lead)
-    tr = trace(lambda b: b.flatten_axes(), buf, argnames=["buf"], label="AbstractBuffer.flatten_axes")
+    tr = trace_or_violation(ck, f"flatten.count@E={E},S={S_}", lambda b: b.flatten_axes(), (buf,), ["buf"], "AbstractBuffer.flatten_axes", stub=False)
+    if tr is None:
+        return
     if first:
         ck.encoded(tr)
         concrete.validate(ck, tr, n=2, seed=ck.seed)
@@ -312,10 +337,9 @@ def sec_sample(ck, E, S_, B, first=False):
     buf = mkrb(lead)
     cfg = f"E={E},S={S_},B={B}"
 
-    def fn(b, k):
-        with stubs.prng_stubs():
-            return b.sample(B, key=k)
-    tr = trace(fn, buf, jr.key(0), argnames=["buf", "key"], label="RolloutBuffer.sample")
+    tr = trace_or_violation(ck, f"gather.aligned@sample,{cfg}", lambda b, k: b.sample(B, key=k), (buf, jr.key(0)), ["buf", "key"], "RolloutBuffer.sample")
+    if tr is None:
+        return
     if first:
         ck.encoded(tr)
         concrete.validate(ck, tr, n=2, seed=ck.seed)
@@ -372,7 +396,7 @@ class SGDPPO(PPO):
 LR = 0.5
 
 
-def trace_train(E, S_, K, NB):
+def trace_train(ck, oid, E, S_, K, NB):
     N = E * S_
     lead = lead_of(E, S_)
     algo = SGDPPO(LR, num_envs=E, num_steps=S_, num_epochs=K, num_batches=NB, normalize_advantages=False, clip_value_loss=False,
@@ -385,11 +409,10 @@ def trace_train(E, S_, K, NB):
                         returns=z(), advantages=z())
     opt_state = algo.optimizer.init(eqx.filter(pol, eqx.is_inexact_array))
 
-    def fn(pol, opt_state, buf, key):
-        with stubs.prng_stubs():
-            p, o, log = algo.train(pol, opt_state, buf, key=key)
+    def real(pol, opt_state, buf, key):
+        p, o, log = algo.train(pol, opt_state, buf, key=key)
         return {"table": p.table}
-    tr = trace(fn, pol, opt_state, buf, jr.key(0), argnames=["pol", "opt", "buf", "key"], label="PPO.train[TabPolicy,SGD]")
+    tr = trace_or_violation(ck, oid, real, (pol, opt_state, buf, jr.key(0)), ["pol", "opt", "buf", "key"], "PPO.train[TabPolicy,SGD]")
     return tr, algo, lead
 
 
@@ -402,7 +425,10 @@ def perm_keys(it):
 
 
 def sec_keys(ck, E, S_, K, NB, first=False):
-    tr, algo, lead = trace_train(E, S_, K, NB)
+    cfg = f"E={E},S={S_},epochs={K},batches={NB}"
+    tr, algo, lead = trace_train(ck, f"epochs.one_shuffle_per_epoch@{cfg}", E, S_, K, NB)
+    if tr is None:
+        return
     N = E * S_
     if first:
         ck.encoded(tr)
@@ -410,7 +436,6 @@ def sec_keys(ck, E, S_, K, NB, first=False):
     S = tr.symbols(it, given={"buf_observations": it.lift(np.arange(N).reshape(lead))})
     tr.run(it, S)
     ks = perm_keys(it)
-    cfg = f"E={E},S={S_},epochs={K},batches={NB}"
     ck.fact(f"epochs.one_shuffle_per_epoch@{cfg}", len(ks) == K, f"{len(ks)} applications of jax.random.permutation reach the symbolic execution of PPO.train; num_epochs={K}")
     root = S["key"][()]
 
@@ -440,11 +465,13 @@ def sec_keys(ck, E, S_, K, NB, first=False):
 
 
 def sec_visits(ck, E, S_, K, NB, timeout=None):
-    tr, algo, lead = trace_train(E, S_, K, NB)
     N = E * S_
-    B = algo.batch_size
+    B = N // NB
     nb = N // B
     cfg = f"E={E},S={S_},B={B},epochs={K}"
+    tr, algo, lead = trace_train(ck, f"train.visit_counts@{cfg}", E, S_, K, NB)
+    if tr is None:
+        return None
     ck.encoded(tr)
     it = Interp()
     S = tr.symbols(it, given={"buf_observations": it.lift(np.arange(N).reshape(lead))})
@@ -536,14 +563,14 @@ def ra_none_{nd}() -> Optional[Tuple[int, ...]]:
     """
     return _call({nd}, None)
 
-
+''' + (f'''
 def ra_int_valid_{nd}(a: int) -> Optional[Tuple[int, ...]]:
-    """
+    \"\"\"
     pre: -{nd} <= a < {nd}
     post: __return__ is not None and _ok({nd}, __return__, (a,))
-    """
+    \"\"\"
     return _call({nd}, a)
-
+''' if nd > 0 else '') + f'''
 
 def ra_int_invalid_{nd}(a: int) -> Optional[Tuple[int, ...]]:
     """
